@@ -21,9 +21,12 @@ import (
 type frScenario struct {
 	Const bool       `json:"constant_recorder"`
 	Calls []frCall   `json:"calls"`
+	// start2 / write2 / stop2 calls go to a second recorder on the same directory (the test-recording
+	// recorder next to the motion recorder); such a scenario has no single-recorder namespace trace
+	Two bool `json:"two_recorders,omitempty"`
 }
 type frCall struct {
-	K string `json:"k"` // start | write | stop | abort
+	K string `json:"k"` // start | write | stop | abort | start2 | write2 | stop2
 	V int    `json:"v,omitempty"`
 }
 
@@ -103,6 +106,9 @@ func frRunScenario(sc frScenario, out string, killName string, kill int, straceL
 	if kill > 0 {
 		// strace counts invocations per system call number: (name, k) enumerates every call
 		args = append(args, "-o", "/dev/null", "-e", "trace="+killName, "-e", fmt.Sprintf("inject=%s:signal=KILL:when=%d", killName, kill))
+	} else if kill < 0 {
+		// counting run: every traced system call of the scenario
+		args = append(args, "-o", straceLog, "-e", "trace="+frSyscalls)
 	} else {
 		args = append(args, "-o", straceLog, "-e", "trace=openat,rename,renameat,renameat2,unlink,unlinkat")
 	}
@@ -141,6 +147,13 @@ func frRunScenario(sc frScenario, out string, killName string, kill int, straceL
 			alive = send("stop")
 		case "abort":
 			alive = send("Stop")
+		case "start2":
+			time.Sleep(2 * time.Millisecond)
+			alive = send("start2 3000")
+		case "write2":
+			alive = send(fmt.Sprintf("write2 %d", c.V))
+		case "stop2":
+			alive = send("stop2")
 		}
 		if observe != nil {
 			observe()
@@ -184,12 +197,13 @@ func frCallsCoq(sc frScenario) string {
 	if sc.Const {
 		dir = "DConst"
 	}
-	ts := 0
-	var cur []int
+	next, ts, ts2 := 0, 0, 0
+	var cur, cur2 []int
 	for _, c := range sc.Calls {
 		switch c.K {
 		case "start":
-			ts++
+			next++
+			ts = next
 			cur = nil
 			s = append(s, fmt.Sprintf("RStart %s %d", dir, ts))
 		case "write":
@@ -198,6 +212,15 @@ func frCallsCoq(sc frScenario) string {
 			s = append(s, fmt.Sprintf("RStop %s %d %s", dir, ts, zlist(cur)))
 		case "abort":
 			s = append(s, fmt.Sprintf("RAbort %s %d %s", dir, ts, zlist(cur)))
+		case "start2":
+			next++
+			ts2 = next
+			cur2 = nil
+			s = append(s, fmt.Sprintf("RStart %s %d", dir, ts2))
+		case "write2":
+			cur2 = append(cur2, c.V)
+		case "stop2":
+			s = append(s, fmt.Sprintf("RStop %s %d %s", dir, ts2, zlist(cur2)))
 		}
 	}
 	return coqList(s)
@@ -281,17 +304,19 @@ func frScenarios(rng *rand.Rand, tier string) []frScenario {
 	}
 	st, sp, ab := []frCall{{K: "start"}}, []frCall{{K: "stop"}}, []frCall{{K: "abort"}}
 	scs := []frScenario{
-		{false, join(st, w(11, 12, 13), sp, st, w(21, 22), sp, st, w(31))},
-		{true, join(st, w(11, 12), sp, st, w(21), sp, st, w(31, 32))},
-		{false, join(st, w(11, 12), ab, st, w(21), sp)},
+		{false, join(st, w(11, 12, 13), sp, st, w(21, 22), sp, st, w(31)), false},
+		{true, join(st, w(11, 12), sp, st, w(21), sp, st, w(31, 32)), false},
+		{false, join(st, w(11, 12), ab, st, w(21), sp), false},
+		// a test recording made while a motion recording is open: at any later kill an unfinished file is OLDER than a finished one
+		{false, join(st, w(11), []frCall{{K: "start2"}, {K: "write2", V: 51}, {K: "write2", V: 52}, {K: "stop2"}}, w(12, 13)), true},
 	}
 	if tier == "thorough" {
 		var many []int
 		for i := 0; i < 400; i++ { // enough frames for bufio flushes of the scratch file
 			many = append(many, 100+i)
 		}
-		scs = append(scs, frScenario{false, join(st, w(many...), sp, st, w(5), ab, st, w(6, 7), sp)},
-			frScenario{true, join(st, w(many...), sp, st, w(8))})
+		scs = append(scs, frScenario{false, join(st, w(many...), sp, st, w(5), ab, st, w(6, 7), sp), false},
+			frScenario{true, join(st, w(many...), sp, st, w(8)), false})
 	}
 	return scs
 }
@@ -319,8 +344,10 @@ func init() {
 			frRunScenario(sc, out, "", 0, logf, func() { observations = append(observations, listTree(out)) })
 			ops := frNamespaceOps(logf, out)
 			if !replay || rin.Kill == 0 {
-				emit(Case{Coq: fmt.Sprintf("CTrace %s %s", frCallsCoq(sc), coqList(ops)), Input: map[string]interface{}{"scenario": sc, "kill": 0},
-					Impl: ops, Tags: []string{"namespace-trace"}, Nontriv: true, Key: fmt.Sprintf("trace%d", si)})
+				if !sc.Two {
+					emit(Case{Coq: fmt.Sprintf("CTrace %s %s", frCallsCoq(sc), coqList(ops)), Input: map[string]interface{}{"scenario": sc, "kill": 0},
+						Impl: ops, Tags: []string{"namespace-trace"}, Nontriv: true, Key: fmt.Sprintf("trace%d", si)})
+				}
 				for oi, ob := range observations {
 					emit(Case{Coq: fmt.Sprintf("CKill %s %s %s", frCallsCoq(sc), frEntriesCoq(ob), "None"), Input: map[string]interface{}{"scenario": sc, "kill": 0, "observation": oi},
 						Impl: ob, Tags: []string{"observer"}, Nontriv: len(ob) > 0, Key: fmt.Sprintf("obs%d-%d", si, oi)})
@@ -330,31 +357,9 @@ func init() {
 			counts := map[string]int{}
 			{
 				cnt := filepath.Join(base, "cnt.strace")
-				cmd := exec.Command("strace", "-f", "-qq", "-o", cnt, "-e", "trace="+frSyscalls, buildDir()+"/tr-driver")
-				cmd.Env = append(os.Environ(), "VERIF_DRIVER=filerec", "GOMAXPROCS=1")
-				var sb strings.Builder
-				cst := "0"
-				if sc.Const {
-					cst = "1"
-				}
 				o2 := filepath.Join(base, fmt.Sprintf("s%d-count", si))
 				os.MkdirAll(o2, 0755)
-				fmt.Fprintf(&sb, "new %s %s 8 6\n", o2, cst)
-				for _, c := range sc.Calls {
-					switch c.K {
-					case "start":
-						sb.WriteString("start 3000\n")
-					case "write":
-						fmt.Fprintf(&sb, "write %d\n", c.V)
-					case "stop":
-						sb.WriteString("stop\n")
-					case "abort":
-						sb.WriteString("Stop\n")
-					}
-				}
-				sb.WriteString("exit\n")
-				cmd.Stdin = strings.NewReader(sb.String())
-				cmd.Run()
+				frRunScenario(sc, o2, "", -1, cnt, nil)
 				b, _ := ioutil.ReadFile(cnt)
 				reName := regexp.MustCompile(`^\d+\s+([a-z0-9_]+)\(`)
 				for _, line := range strings.Split(string(b), "\n") {
